@@ -45,7 +45,7 @@ CLAIMED.update({
 CLAIMED.update({
     "C03": ("trn", "exploration",
             "Speed-limited trains built through TrainSimBuilder on generated networks, driven by the simulator's own step loop with a simulated dispatcher->train authority channel (extensions delivered early, just in time, late - the train must stand at the end of authority and restart -, in batches, preceded by empty extensions), by the protocol of walk_timed_path on generated timed paths (ties, out-of-order times), and whole-path; crash/restore of the whole simulation between steps; dt in {0.5, 1, 2} s. Per executed step: speed >= 0, <= limit in force, <= posted restriction at the front (pointwise-minimum reference), target <= limit, inside the path; end: Ok => at rest in the stopping window, Err => names a cause, panic = violation; bounded liveness: in the final walk a train left at rest with a zero target outside the stopping window is handed to the shipped walk(), which must end the run with a descriptive error (an endless loop is caught by the watchdog), and a run must arrive within 4 x remaining metres + 3000 steps after the last delivery and the last fault. The shipped walk()/walk_timed_path() are then run on the same scenario and must reproduce the driven run bit for bit.",
-            "Trusted: pointwise-minimum reference; grade bound 0.8 %; liveness bounds as stated. Light trains that stop short of the window end with the descriptive error introduced by the repair of finding C03-stops-short-of-window-on-final-braking-curve."),
+            "Trusted: pointwise-minimum reference; grade bound 0.8 %; liveness bounds as stated. Friction-brake ramp-up time 0 s (builder) on most and 5-60 s on 12 % of the cases; one open finding in the latter family (C03-ramping-friction-brake-cannot-hold-the-limit-at-once). Light trains that stop short of the window end with the descriptive error introduced by the repair of finding C03-stops-short-of-window-on-final-braking-curve."),
     "C07": ("trn", "exploration",
             "Set-speed and speed-limited runs over routes mixing very short and very long links with trains shorter and longer than a link, so the cached front/rear indices cross several points per step, sit on one point, and are re-based by path extensions mid-run; crash/restore between steps (the indices are serialised state); forces recomputed per executed step from the network (elevation and curve walks over the route's own points) and from coefficients re-aggregated from the car list.",
             "Trusted: resistance reference (~80 lines), 1e-9 relative + 1e-6 N; force at step k belongs to position/speed of step k-1; library gravity constant."),
